@@ -1250,7 +1250,7 @@ int check_symbol_file(const char *symfile, char *pathname, int pathlen, char *bu
 		if (!strncmp(line, "# path name: ", 13)) {
 			strncpy(pathname, line + 13, pathlen);
 			pathlen = strlen(pathname);
-			if (pathname[pathlen - 1] == '\n')
+			if (pathlen > 0 && pathname[pathlen - 1] == '\n')
 				pathname[pathlen - 1] = '\0';
 			ret++;
 		}
@@ -1259,7 +1259,7 @@ int check_symbol_file(const char *symfile, char *pathname, int pathlen, char *bu
 			build_id[build_id_len - 1] = '\0';
 			/* in case it has a shorter build-id */
 			build_id_len = strlen(build_id);
-			if (build_id[build_id_len - 1] == '\n')
+			if (build_id_len > 0 && build_id[build_id_len - 1] == '\n')
 				build_id[build_id_len - 1] = '\0';
 			ret++;
 		}
